@@ -148,7 +148,7 @@ healthCheck.maxFailed = %d
 	run.Count("gating_checked_probes_stop", 1)
 }
 
-const gateGrace = 25 * time.Second // 3x (interval + timeout + back-off) + 10 s
+const gateGrace = 31 * time.Second // 3x (interval + timeout + back-off) + 10 s
 
 func gatingProxy(c *h.Case, cli *h.Client, name string, hb *hback, maxFailed int, startDown, flap bool, fk byte) {
 	rng := c.R.RandFor("gating-"+name, c.Idx)
